@@ -117,7 +117,13 @@ def run(ctx):
             continue
         rets = [s for s in iter_stmts(lp.body) if isinstance(s, ast.Return)]
         if not rets:
-            continue
+            # choose-then-break form: the accepted reader is kept in a local, the loop is left, and that local is returned afterwards
+            tnames = set(n_.id for n_ in ast.walk(lp.target) if isinstance(n_, ast.Name))
+            kept = [s.targets[0].id for s in iter_stmts(lp.body) if isinstance(s, ast.Assign) and isinstance(s.targets[0], ast.Name) and isinstance(s.value, ast.Name) and s.value.id in tnames]
+            brk = any(isinstance(s, ast.Break) for s in iter_stmts(lp.body))
+            after = [s for s in iter_stmts(g.body) if isinstance(s, ast.Return) and s.lineno > lp.lineno and isinstance(s.value, ast.Name) and s.value.id in kept]
+            if not (kept and brk and after):
+                continue
         # the iterated name must be a local (copy or filtered list), never the global itself
         if itn in regs:
             ctx.violation(Finding('R-SCAN', REG, 'getreader', lp, 'detection loop iterates the global registry itself'))
@@ -190,6 +196,29 @@ def run(ctx):
             if not res.feasible:
                 continue
             asked = any(p_ is True and any(is_ask(c) for c in ast.walk(x)) for e_, x, p_ in res.conds)
+            if not asked and lp is None and isinstance(rst.value, ast.Name):
+                # choose-then-break: the returned local is bound inside a scan loop; the question is put where it is bound
+                nm_ = rst.value.id
+                for l3 in [x for x in iter_stmts(g.body) if isinstance(x, ast.For)]:
+                    binds = [s_ for s_ in iter_stmts(l3.body) if isinstance(s_, ast.Assign) and any(isinstance(t, ast.Name) and t.id == nm_ for t in s_.targets)]
+                    if not binds:
+                        continue
+                    allasked = True
+                    nb_ = 0
+                    for p3 in _paths.enumerate_paths(l3.body, limit=60000):
+                        if not any(s_ in binds for s_ in p3.stmts):
+                            continue
+                        r3 = _paths.expand(p3)
+                        if not r3.feasible:
+                            continue
+                        nb_ += 1
+                        k3 = max(i_ for i_, (s_, n_) in enumerate(r3.stmts) if s_ in binds)
+                        if not any(p_ is True and any(is_ask(c) for c in ast.walk(x)) for e_, x, p_ in r3.conds[:r3.ncond_at[k3]]):
+                            allasked = False
+                    # the only other binding outside loops must be a None / placeholder initialisation
+                    outer = [s_ for s_ in g.body if isinstance(s_, ast.Assign) and any(isinstance(t, ast.Name) and t.id == nm_ for t in s_.targets)]
+                    if nb_ and allasked and all(isinstance(s_.value, ast.Constant) and s_.value.value is None for s_ in outer):
+                        asked = True
             if not asked:
                 trial = [k_ for k_, s_ in enumerate(pth.stmts) if isinstance(s_, ast.Expr) and isinstance(s_.value, ast.Call) and dotted(s_.value.func) == 'testreader']
                 handler_after = [k_ for k_, s_ in enumerate(pth.stmts) if isinstance(s_, ast.Expr) and isinstance(s_.value, ast.Constant) and str(s_.value.value).startswith('<except')]
